@@ -9,6 +9,7 @@ CONSTANTS
   RF2 = 2
   Parts <- TraceParts
   NoConf = NoConf
+  Merged = "-1"
   Static = FALSE
   PubChoices = {}
 INVARIANT TypeOK
